@@ -1,6 +1,10 @@
 /-
   Driver.Scan — line protocol of the `scan` sub-harness (C11).
     in :  `<mode> <n> node*`   one component type in prefix notation (mode `G` / `X<k>` is ignored here)
+          mode `G+<pos><ret>`: the same component started next to an EXTRA user post-processor ahead of the recording one
+          (pos f|l) whose PostProcessProperties returns nil / the list / a reversed, empty or partial list (ret n|s|r|e|b|m|p).
+          ResolveAfterInstantiation drops that result (`Scan.handedLoop`, C11_handed_all, C11_code_handed), and the extra
+          processor registers no tag scanner, so the definition printed here is the same as for mode `G`.
           node = L <name> <ty> <marker> <ntags> (<key> <valhex>)*
                | S <name> <ty> <marker> <av|ap|nv|np> <ntags> (<key> <valhex>)* <nkids> node*
     out:  `fields <n> <path>… props <m> <path>/<tag>/<ptype>/<valhex>/<args>…`
@@ -93,12 +97,38 @@ def render (sh : Shape) : String :=
     let lines := isort (fun a b => decide (a < b)) (ps.map showProp)
     head ++ " props " ++ toString lines.length ++ String.join (lines.map fun l => " " ++ l)
 
+/-- what the extra processor of a `G+<pos><ret>` line returns for the list it is handed (the content-chosen part `p` is
+    some sublist: which one does not matter, the result is dropped) -/
+def extraRet (ret : Char) : Option PropsRet :=
+  if ret = 'n' then some (fun _ => none)
+  else if ret = 's' then some (fun l => some l)
+  else if ret = 'r' then some (fun l => some l.reverse)
+  else if ret = 'e' then some (fun _ => some [])
+  else if ret = 'b' then some (fun l => some (l.filter (fun q => q.tag ≠ customTag)))
+  else if ret = 'm' then some (fun l => some (ofTag customTag l))
+  else if ret = 'p' then some (fun l => some (l.take (l.length / 2)))
+  else none
+
+/-- the chain of a `G+` line as far as C11 looks at it: the extra processor, then the recording one (which returns nil) -/
+def chainOf (mode : String) : Option (List PropsRet) :=
+  match mode.toList with
+  | ['G', '+', pos, ret] =>
+    if pos = 'f' || pos = 'l' then (extraRet ret).map (fun r => [r, fun _ => none]) else none
+  | _ => if mode.startsWith "G+" then none else some [fun _ => none]
+
 def handle (line : String) : String :=
   match (line.splitOn " ").filter (· ≠ "") with
-  | _mode :: ts =>
-    match readKids (3 * ts.length + 10) ts with
-    | some (sh, []) => render sh
-    | _ => "bad-line"
+  | mode :: ts =>
+    match chainOf mode, readKids (3 * ts.length + 10) ts with
+    | some chain, some (sh, []) =>
+      -- the recorder (last of the chain) is handed everything: what it finds under its tag is the custom scanner's output
+      let fs := scan sh
+      match properties? procs fs with
+      | none => render sh
+      | some ps =>
+        let handed := (handedLoop ps chain).getLast?.getD []
+        if (ofTag customTag handed).length = (ofTag customTag ps).length then render sh else "recorder-starved"
+    | _, _ => "bad-line"
   | [] => "bad-line"
 
 end Driver.Scan
